@@ -1,5 +1,115 @@
-(* C17 stub *)
-From DV Require Import Gen.RangeGen Model.Search.
-From Coq Require Import ZArith Bool List.
-Theorem C17_stub : True. Proof. exact I. Qed.
-Print Assumptions C17_stub.
+(* C17 -- Search returns exactly the matching entries, in order, page by page.
+   Property theorems only; proofs live in Proofs/SearchProofs.v.
+   rng_contains / scrub_covers come from Gen/RangeGen.v (regenerated from
+   db/basis.py on every run); everything else from Model/Search.v. *)
+From DV Require Import Gen.RangeGen Model.Search Proofs.SearchProofs.
+From Coq Require Import List ZArith Bool Sorting.Sorted.
+Import ListNotations.
+Open Scope Z_scope.
+
+(* ---- the generated membership test is the half-open interval ---- *)
+Theorem C17_range_contains : forall (r : rng) z,
+  rng_contains r z = true <->
+  fst r <= z /\ match snd r with None => True | Some s => z < s end.
+Proof. exact S_contains_iff. Qed.
+Print Assumptions C17_range_contains.
+
+(* the inline covered-index test of _scrub is that same membership test *)
+Theorem C17_scrub_covers : forall (r : rng) i, scrub_covers r i = rng_contains r i.
+Proof. exact S_covers_contains. Qed.
+Print Assumptions C17_scrub_covers.
+
+(* ---- normalising a run-ID expression never changes the set it denotes ----
+   (for every z, -1 included: stronger than the DESIGN statement) *)
+Theorem C17_scrub_denote : forall e z, denote (scrub e) z = denote e z.
+Proof. exact S_scrub_denote. Qed.
+Print Assumptions C17_scrub_denote.
+
+(* ... nor the run-id filter that _prime_keys builds from it (there -1 is the
+   "latest" marker and is discarded, so real run ids are z <> -1) *)
+Theorem C17_scrub_constraint : forall e z, z <> -1 ->
+  col_ok (run_constraint (Some (scrub e))) z = col_ok (run_constraint (Some e)) z.
+Proof. exact S_scrub_constraint. Qed.
+Print Assumptions C17_scrub_constraint.
+
+(* ---- find(p) = the sorted duplicate-free 5-prefixes of the matching prime
+   keys, ascending in run id.  `matches` is the declarative reading of the
+   constraints on the RAW (un-normalised) parameters; key_ok: ids >= 0 and a
+   run id other than the -1 marker (what the database writes) ---- *)
+Theorem C17_exact : forall d p,
+  Forall key_ok (prime d) ->
+  StronglySorted lt5 (full_list d p) /\
+  StronglySorted (fun a b => run5 a <= run5 b) (full_list d p) /\
+  NoDup (full_list d p) /\
+  (forall t, In t (full_list d p) <->
+             exists k, In k (prime d) /\ pk_prefix k = t /\ matches d p k).
+Proof. exact S_exact. Qed.
+Print Assumptions C17_exact.
+
+(* ... and it is the only such list *)
+Theorem C17_exact_unique : forall d p l,
+  Forall key_ok (prime d) ->
+  StronglySorted lt5 l ->
+  (forall t, In t l <-> exists k, In k (prime d) /\ pk_prefix k = t /\ matches d p k) ->
+  l = full_list d p.
+Proof. exact S_exact_unique. Qed.
+Print Assumptions C17_exact_unique.
+
+(* ---- total = the full match count, on every page (any integers) ---- *)
+Theorem C17_total : forall d p i l,
+  snd (search_find d p i l) = Z.of_nat (length (full_list d p)).
+Proof. exact S_total. Qed.
+Print Assumptions C17_total.
+
+(* ---- a page is firstn limit (skipn index full) ---- *)
+Theorem C17_pages : forall d p i l, 0 <= i -> 0 <= l ->
+  fst (search_find d p i (Some l)) = firstn (Z.to_nat l) (skipn (Z.to_nat i) (full_list d p)).
+Proof. exact S_pages. Qed.
+Print Assumptions C17_pages.
+
+Theorem C17_pages_unbounded : forall d p i, 0 <= i ->
+  fst (search_find d p i None) = skipn (Z.to_nat i) (full_list d p).
+Proof. exact S_pages_open. Qed.
+Print Assumptions C17_pages_unbounded.
+
+(* ---- consecutive pages concatenate to the full list: no gap, no repeat ---- *)
+Theorem C17_pages_concat : forall d p (L n : nat),
+  (length (full_list d p) <= n * L)%nat ->
+  concat (map (fun k => fst (search_find d p (Z.of_nat (k * L)) (Some (Z.of_nat L)))) (seq 0 n))
+  = full_list d p.
+Proof. exact S_pages_cover. Qed.
+Print Assumptions C17_pages_concat.
+
+(* ---- facet: sorted duplicate-free names of the matching entries ---- *)
+Theorem C17_facet : forall d p col,
+  StronglySorted Z.lt (search_facet d p col) /\
+  forall n, In n (search_facet d p col) <->
+            exists k, In k (full_list d p) /\
+                      nth (Z.to_nat (col5 col k)) (facet_table d col) (-1) = n.
+Proof. exact S_facet. Qed.
+Print Assumptions C17_facet.
+
+(* ---- non-vacuity ---- *)
+(* overlapping + open + adjacent ranges and a covered index are merged *)
+Example C17_scrub_example :
+  scrub [Idx 6; Rng (1, Some 3); Rng (2, Some 5); Rng (0, Some 1); Rng (9, None); Idx 4]
+  = [Rng (0, Some 5); Rng (9, None); Idx 6].
+Proof. vm_compute. reflexivity. Qed.
+
+(* the hypothesis of C17_exact is satisfiable and the search is not trivial:
+   a range expression selects runs 2 and 3; page (1,1) is the second entry *)
+Example C17_exact_example :
+  Forall key_ok (prime ex_db) /\
+  full_list ex_db (mkP (Some [Rng (2, Some 4)]) None None None None None)
+    = [(2,0,0,1,1); (3,1,0,2,2)] /\
+  search_find ex_db (mkP None None None (Some [0]) None None) 1 (Some 1) = ([(3,1,0,2,2)], 3).
+Proof.
+  split; [|split; vm_compute; reflexivity].
+  repeat constructor; cbn; try discriminate; try (intros H; discriminate H).
+Qed.
+
+(* pages of size 2 tile the unconstrained search of the example database *)
+Example C17_pages_example :
+  concat (map (fun k => fst (search_find ex_db no_params (Z.of_nat (k * 2)) (Some 2))) (seq 0 2))
+  = full_list ex_db no_params /\ length (full_list ex_db no_params) = 4%nat.
+Proof. split; vm_compute; reflexivity. Qed.
